@@ -464,6 +464,115 @@ void invariance_case(vt::Rng& rng, int64_t icase)
         }
     }
 }
+
+// ---- float oracle: the linear and gboost-bias objectives against their definitions computed naively over the scaled, missing -> 0
+// flattened samples (independent statistics objects, one loss call over all samples), for every loss, the four scaling modes, l1/l2 up
+// to 1e6, cached / un-cached inputs and targets, any batch size and thread count
+void naive_case(vt::Rng& rng, int64_t icase)
+{
+    const auto class_target = rng.coin(1, 3);
+    const auto D            = make_data(rng, true, class_target);
+    const auto ids          = loss_t::all().ids();
+    const auto lossid       = ids[static_cast<size_t>(rng.range(0, static_cast<int64_t>(ids.size()) - 1))];
+    const auto loss         = loss_t::all().get(lossid);
+    const auto samples      = pick_samples(rng, D.n);
+    const auto n            = samples.size();
+    const auto mode         = rng.pick(std::vector<scaling_type>{scaling_type::none, scaling_type::mean, scaling_type::minmax, scaling_type::standard});
+    const auto l1           = rng.coin(1, 4) ? 0.0 : std::pow(10.0, rng.uniform(-3.0, 6.0));
+    const auto l2           = rng.coin(1, 4) ? 0.0 : std::pow(10.0, rng.uniform(-3.0, 6.0));
+
+    // reference tensors
+    auto       dataset1 = make_dataset(*D.source, 1);
+    tensor2d_t xbuffer;
+    tensor4d_t tbuffer;
+    tensor2d_t X = dataset1->flatten(samples, xbuffer);
+    tensor4d_t T = dataset1->targets(samples, tbuffer);
+    scalar_stats_t::make_flatten_stats(*dataset1, samples).scale(mode, X.tensor());
+    scalar_stats_t::make_targets_stats(*dataset1, samples).scale(mode, T.tensor());
+    for (tensor_size_t i = 0; i < X.size(); ++i)
+    {
+        X(i) = std::isfinite(X(i)) ? X(i) : 0.0;
+    }
+    const auto isize = X.size<1>(), tsize = T.size() / std::max<tensor_size_t>(1, n);
+
+    vector_t x(isize * tsize + tsize);
+    for (tensor_size_t i = 0; i < x.size(); ++i)
+    {
+        x(i) = rng.uniform(-0.5, 0.5) / std::sqrt(static_cast<double>(isize));
+    }
+    // naive value and gradient
+    const auto W = map_tensor(x.data(), tsize, isize);
+    const auto b = map_tensor(x.data() + tsize * isize, tsize);
+    tensor4d_t outputs(T.dims());
+    outputs.reshape(n, tsize).matrix() = X.matrix() * W.matrix().transpose();
+    outputs.reshape(n, tsize).matrix().rowwise() += b.vector().transpose();
+    tensor1d_t values;
+    tensor4d_t vgrads;
+    loss->value(T, outputs, values);
+    loss->vgrad(T, outputs, vgrads);
+    const auto wsz = static_cast<double>(W.size());
+    const auto nfx = values.vector().sum() / static_cast<double>(n) + l1 * W.array().abs().sum() / wsz + 0.5 * l2 * W.array().square().sum() / wsz;
+    vector_t   ngx(x.size());
+    {
+        auto gW          = map_tensor(ngx.data(), tsize, isize);
+        auto gb          = map_tensor(ngx.data() + tsize * isize, tsize);
+        gW.matrix()      = vgrads.reshape(n, tsize).matrix().transpose() * X.matrix() / static_cast<double>(n);
+        gW.array()      += l1 * W.array().sign() / wsz + l2 * W.array() / wsz;
+        gb.vector()      = vgrads.reshape(n, tsize).matrix().colwise().sum().transpose() / static_cast<double>(n);
+    }
+    const auto finite = std::isfinite(nfx) && ngx.all_finite();
+
+    for (int variant = 0; variant < 3; ++variant)
+    {
+        const auto threads = static_cast<size_t>(rng.pick(std::vector<int64_t>{1, 2, 3, 5, 16}));
+        const auto batch   = rng.pick(std::vector<tensor_size_t>{1, 2, 3, 7, 16, 64, 10000});
+        const auto cachex = rng.coin(), cachet = rng.coin();
+        auto       dataset = make_dataset(*D.source, threads);
+        auto       it      = flatten_iterator_t{*dataset, samples};
+        it.batch(batch);
+        it.scaling(mode);
+        if (cachex)
+        {
+            it.cache_flatten(std::numeric_limits<tensor_size_t>::max());
+        }
+        if (cachet)
+        {
+            it.cache_targets(std::numeric_limits<tensor_size_t>::max());
+        }
+        const auto function = linear::function_t{it, *loss, l1, l2};
+        vector_t   gx(function.size());
+        const auto fx = function.size() == x.size() ? function.vgrad(x, gx) : std::nan("");
+        const auto ok = !finite || (close_rel(fx, nfx) && close_rel(gx, ngx));
+        vt::put(vt::J("Naive").i("case", icase).s("what", "linear").s("loss", lossid).i("scaling", static_cast<int64_t>(mode)).i("threads", static_cast<int64_t>(threads)).i(
+            "batch", std::min<tensor_size_t>(batch, 100000)).b("cachedInputs", cachex).b("cachedTargets", cachet).b("finite", finite).b("naiveOK", ok).b(
+            "valueOnlySame", !finite || close_rel(function.vgrad(x), fx)));
+
+        // gboost bias objective: mean_i loss(t_i, b)
+        auto tit = targets_iterator_t{*dataset, samples};
+        tit.batch(batch);
+        tit.scaling(mode);
+        if (cachet)
+        {
+            tit.cache_targets(std::numeric_limits<tensor_size_t>::max());
+        }
+        const auto bias = gboost::bias_function_t{tit, *loss};
+        vector_t   bx(tsize), bgx(tsize), nbg(tsize);
+        for (tensor_size_t i = 0; i < tsize; ++i)
+        {
+            bx(i) = rng.uniform(-1.0, 1.0);
+        }
+        outputs.reshape(n, tsize).matrix().rowwise() = bx.vector().transpose();
+        loss->value(T, outputs, values);
+        loss->vgrad(T, outputs, vgrads);
+        const auto nbf = values.vector().sum() / static_cast<double>(n);
+        nbg.vector()   = vgrads.reshape(n, tsize).matrix().colwise().sum().transpose() / static_cast<double>(n);
+        const auto bfx = bias.vgrad(bx, bgx);
+        const auto bfinite = std::isfinite(nbf) && nbg.all_finite();
+        vt::put(vt::J("Naive").i("case", icase).s("what", "gboost-bias").s("loss", lossid).i("scaling", static_cast<int64_t>(mode)).i("threads", static_cast<int64_t>(threads)).i(
+            "batch", std::min<tensor_size_t>(batch, 100000)).b("cachedInputs", false).b("cachedTargets", cachet).b("finite", bfinite).b(
+            "naiveOK", !bfinite || (close_rel(bfx, nbf) && close_rel(bgx, nbg))).b("valueOnlySame", !bfinite || close_rel(bias.vgrad(bx), bfx)));
+    }
+}
 } // namespace
 
 int main(int argc, char* argv[])
@@ -482,6 +591,7 @@ int main(int argc, char* argv[])
         {
             lattice_case(rng, i);
             invariance_case(rng, i);
+            naive_case(rng, i);
         }
         catch (const std::exception& e)
         {
